@@ -561,6 +561,18 @@ let rec run toks =
      | Some fn when edge_attached x && Hashtbl.mem fors fn ->
        let old_e = Hashtbl.find_opt edges x and old_ev = Hashtbl.find_opt evtabs x in
        mute := true;
+       (* the result edge may be one of the operands: the operands are read first *)
+       let alias n =
+         if n <> x then n
+         else begin
+           let t = n ^ "~operand" in
+           (match old_e with Some v -> Hashtbl.replace edges t v | None -> Hashtbl.remove edges t);
+           (match old_ev with Some v -> Hashtbl.replace evtabs t v | None -> Hashtbl.remove evtabs t);
+           (match Hashtbl.find_opt edge_forest_name n with
+            | Some f -> Hashtbl.replace edge_forest_name t f | None -> ());
+           t
+         end in
+       let a = alias a and b = alias b in
        (try run ["apply"; x; fn; op; a; b]; mute := false
         with
         | Err c ->
